@@ -21,6 +21,7 @@ CONSTANTS
   CHAIN = FALSE
   WILD = TRUE
   FIXMODEL = "intended"
+  ANYRATIO = FALSE
   BASEMOD = 2
   EMIT = TRUE
 CHECK_DEADLOCK FALSE
